@@ -14,11 +14,21 @@ class SizeMonitor(netsim.Monitor):
     """Datagram size, Initial padding, anti-amplification (observed from outside)."""
 
     def attach(self, w):
+        self.internal_budget = None
+        self._sent_in_call = 0
         self.rx = {}          # (endpoint, remote addr) -> bytes passed to receive_datagram
         self.tx = {}          # (endpoint, remote addr) -> bytes handed out for sending
         self.validated = set()  # (endpoint, remote addr)
         self.challenges = {}  # (endpoint, addr) -> set of PATH_CHALLENGE data sent there
         self.validated.add(("c", netsim.S_ADDR))  # a client chose its server address
+
+    def before_send(self, w, ep):
+        # for the SIGNATURE only: the endpoint's own view of its remaining anti-amplification
+        # budget (it may credit less than was delivered, e.g. for discarded duplicates)
+        self.internal_budget = None
+        paths = ep.conn._network_paths
+        if paths and not paths[0].is_validated:
+            self.internal_budget = 3 * paths[0].bytes_received - paths[0].bytes_sent
 
     def on_deliver(self, w, ep, d, addr):
         key = (ep.name, addr)
@@ -41,8 +51,10 @@ class SizeMonitor(netsim.Monitor):
             self.validated.add(pv)
             self._pending_validation = None
         mds = w.cfg["c_mds"] if ep.name == "c" else w.cfg["s_mds"]
+        self._sent_in_call = 0
         for d, addr in sent:
             n = len(d.data)
+            self._sent_in_call += n
             if n > mds:
                 raise Violation(
                     {"monitor": "size.exceeds_max_datagram_size", "endpoint": ep.name},
@@ -60,7 +72,8 @@ class SizeMonitor(netsim.Monitor):
                         budget = 3 * self.rx.get(k0, 0) - self.tx.get(k0, 0)
                         raise Violation(
                             {"monitor": "size.server_ack_eliciting_initial_below_1200",
-                             "amplification_budget_below_1200": k0 not in self.validated and budget < 1200},
+                             "amplification_budget_below_1200": (k0 not in self.validated and budget < 1200)
+                             or (self.internal_budget is not None and self.internal_budget - (self._sent_in_call - n) < 1200)},
                             "server datagram with an ack-eliciting Initial packet (pn %d, frames %s) is %d bytes"
                             % (r.pn, [f["t"] for f in r.frames], n),
                         )
